@@ -27,7 +27,37 @@ MOLECULES["H2O_dummy"] = [("O", 0.0, 0.0, 0.0), ("H", 0.0, 0.7570, 0.5860), ("H"
 MOLECULES["CHFClBr_mirror"] = [(el, -x, y, z) for el, x, y, z in MOLECULES["CHFClBr"]]      # the other enantiomer
 
 
+def file_coords(name: str) -> np.ndarray:
+    """coordinates (Angstrom) exactly as the file written by write_xyz() stores them; 'H2O@gro' / 'H2O@pdb' = other formats"""
+    base, _, fmt = name.partition("@")
+    raw = np.array([a[1:] for a in MOLECULES[base]], dtype=float)
+    if fmt == "gro":        # nm with three decimals
+        return np.array([[float(f"{v / 10:8.3f}") * 10 for v in row] for row in raw])
+    if fmt == "pdb":        # Angstrom with three decimals
+        return np.array([[float(f"{v:8.3f}") for v in row] for row in raw])
+    return np.array([[float(f"{v:.6f}") for v in row] for row in raw])
+
+
 def write_xyz(name: str, directory: str) -> str:
+    base, _, fmt = name.partition("@")
+    if fmt == "gro":
+        path = os.path.join(directory, f"{base}.gro")
+        atoms = MOLECULES[base]
+        with open(path, "w") as f:
+            f.write(f"{base}\n{len(atoms):5d}\n")
+            for i, (el, x, y, z) in enumerate(atoms):
+                f.write(f"{1:5d}{'MOL':<5s}{el:>5s}{i + 1:5d}{x / 10:8.3f}{y / 10:8.3f}{z / 10:8.3f}\n")
+            f.write("   3.00000   3.00000   3.00000\n")
+        return path
+    if fmt == "pdb":
+        path = os.path.join(directory, f"{base}.pdb")
+        atoms = MOLECULES[base]
+        with open(path, "w") as f:
+            f.write("CRYST1   30.000   30.000   30.000  90.00  90.00  90.00 P 1           1\n")
+            for i, (el, x, y, z) in enumerate(atoms):
+                f.write(f"ATOM  {i + 1:5d} {el:<4s} MOL A   1    {x:8.3f}{y:8.3f}{z:8.3f}  1.00  0.00          {el:>2s}\n")
+            f.write("END\n")
+        return path
     path = os.path.join(directory, f"{name}.xyz")
     atoms = MOLECULES[name]
     with open(path, "w") as f:
